@@ -157,7 +157,7 @@ def run_case(case):
         names = ["emoji_u%x.svg" % (0x1F600 + g) for g in range(len(spec["glyphs"]))]
         cfg = {
             "output_file": "VF.ttf", "color_format": "glyf_colr_1", "upem": spec["upem"], "ascender": spec["asc"], "descender": spec["desc"], "width": spec["upem"],
-            "reuse_tolerance": 0.1 if spec["reuse"] else -1, "clip_to_viewbox": False, "keep_glyph_names": True,
+            "reuse_tolerance": 0.1 if spec["reuse"] else -1, "clip_to_viewbox": case["i"] % 2 == 0, "keep_glyph_names": True,
             "axis": {tag: {"name": nm_, "default": spec["default"][tag]} for tag, nm_ in spec["axes"]},
             "master": {},
         }
@@ -311,8 +311,11 @@ def run_case(case):
                     continue  # the shared glyph is not part of this master's own directory
                 for sh in gl:
                     pm = sh["params"][m]
-                    pm["x"], pm["y"] = pm["x"] + 0.04, max(0.02, pm["y"] - 0.03)
-                    pm["pts"] = [(x + 0.04, y - 0.03) for x, y in pm["pts"]]
+                    # shrink towards the centre of the viewBox: stays inside it (no new clipping), same structure
+                    k_ = 0.88
+                    pm["x"], pm["y"] = 0.5 + (pm["x"] - 0.5) * k_, 0.5 + (pm["y"] - 0.5) * k_
+                    pm["w"], pm["h"] = pm["w"] * k_, pm["h"] * k_
+                    pm["pts"] = [(0.5 + (x - 0.5) * k_, 0.5 + (y - 0.5) * k_) for x, y in pm["pts"]]
             time.sleep(0.02)
             for g, n in enumerate(names):
                 if g != spec.get("common_glyph"):
